@@ -76,6 +76,13 @@ class SimFile:
         self.pos += len(out)
         return out
 
+    def readinto(self, b):
+        """BufferedIOBase.readinto: fills the caller's buffer, returns the number of bytes read"""
+        data = self.read(len(b))
+        n = len(data)
+        b[:n] = data
+        return n
+
     def seek(self, pos, whence=0):
         self._check()
         if whence == 0:
